@@ -403,27 +403,20 @@ def RuleAvoids (cx : Ctx) (rule : Rule) : Prop := ∀ a, a ∈ rule.alts → Alt
 theorem ruleStep_nts {cx : Ctx} {rule : Rule} {st st' : XSt} (hi : NtsInv none st)
     (hav : RuleAvoids cx rule) (hne : rule.alts ≠ []) (h : ruleStep cx rule st = .ok st') :
     NtsInv none st' ∧ ∃ nt, findNt st'.nts rule.name = some nt := by
-  unfold ruleStep at h
-  split at h
-  · cases h
-  · split at h
-    · cases h
-    · split at h
-      · rename_i nt hf
-        obtain ⟨r1, nt', r2, _⟩ := altSteps_nts (pend := none) hi ⟨nt, hf, rfl⟩ hav hne h
-        exact ⟨r1, nt', r2⟩
-      · rename_i hf
-        have hi' : NtsInv (some (rule.name, st.nextNt)) ({ st with nextNt := st.nextNt + 1 } : XSt) := by
-          refine ⟨hi.names, hi.idxs, fun nt hnt => Nat.lt_succ_of_lt (hi.bound nt hnt), hi.prodsB, ?_⟩
-          refine ⟨?_, Nat.lt_succ_self _, findNt_none hf, ?_⟩
-          · show st.nts.length + 1 = st.nextNt + 1
-            rw [hi.pendOk]
-          · intro hm
-            obtain ⟨x, hx, e⟩ := List.mem_map.mp hm
-            have := hi.bound x hx
-            omega
-        obtain ⟨r1, nt', r2, _⟩ := altSteps_nts (pend := some (rule.name, st.nextNt)) hi' rfl hav hne h
-        exact ⟨r1, nt', r2⟩
+  rcases ruleStep_ok h with ⟨nt, hf, h⟩ | ⟨hf, h⟩
+  · obtain ⟨r1, nt', r2, _⟩ := altSteps_nts (pend := none) hi ⟨nt, hf, rfl⟩ hav hne h
+    exact ⟨r1, nt', r2⟩
+  · have hi' : NtsInv (some (rule.name, st.nextNt)) ({ st with nextNt := st.nextNt + 1 } : XSt) := by
+      refine ⟨hi.names, hi.idxs, fun nt hnt => Nat.lt_succ_of_lt (hi.bound nt hnt), hi.prodsB, ?_⟩
+      refine ⟨?_, Nat.lt_succ_self _, findNt_none hf, ?_⟩
+      · show st.nts.length + 1 = st.nextNt + 1
+        rw [hi.pendOk]
+      · intro hm
+        obtain ⟨x, hx, e⟩ := List.mem_map.mp hm
+        have := hi.bound x hx
+        omega
+    obtain ⟨r1, nt', r2, _⟩ := altSteps_nts (pend := some (rule.name, st.nextNt)) hi' rfl hav hne h
+    exact ⟨r1, nt', r2⟩
 
 /-- an entry, once there, stays (possibly with more productions) -/
 theorem altStep_keeps {cx : Ctx} {rule : Rule} {ntIdx j : Nat} {alt : Alt} {st st' : XSt} {n : Name}
@@ -459,14 +452,9 @@ theorem altSteps_keeps {cx : Ctx} {rule : Rule} {ntIdx : Nat} {n : Name} :
 
 theorem ruleStep_keeps {cx : Ctx} {rule : Rule} {st st' : XSt} {n : Name}
     (hn : hasNt st.nts n = true) (h : ruleStep cx rule st = .ok st') : hasNt st'.nts n = true := by
-  unfold ruleStep at h
-  split at h
-  · cases h
-  · split at h
-    · cases h
-    · split at h
-      · exact altSteps_keeps hn h
-      · exact altSteps_keeps (st := { st with nextNt := st.nextNt + 1 }) hn h
+  rcases ruleStep_ok h with ⟨nt, hf, h⟩ | ⟨hf, h⟩
+  · exact altSteps_keeps hn h
+  · exact altSteps_keeps (st := { st with nextNt := st.nextNt + 1 }) hn h
 
 theorem ruleSteps_keeps {cx : Ctx} {n : Name} :
     ∀ {rules : List Rule} {st st' : XSt}, hasNt st.nts n = true → ruleSteps cx rules st = .ok st' →
